@@ -418,4 +418,25 @@ def run(ctx):
         if bad:
             continue
     k4.floor('identifier_constructors', k4.instances, 3)
+    # the set in force is the INNERMOST open selector: the accessor through which the version stack is read takes its last element
+    # (`first()` / `get(0)` / `iter().next()` gives the outermost region — nested regions, and the transient directive-name set inside a
+    # region, are then ignored)
+    from vlib import sx as _sx
+    acc_ = []
+    for fl_, mp_, fn_, im_ in _sx.crate_fns(ctx.syn, g.crate):
+        if im_ is None and fn_.get('body') and 'Option<Version>' in (fn_['sig'].get('rets') or '').replace(' ', '') and \
+                any(n_.get('k') == 'path' and n_['p'].split('::')[-1] == 'CURRENT_VERSION' for n_ in _sx.walk(fn_['body'])):
+            acc_.append((fl_, fn_))
+    k2.inst('version-accessor', {'functions': [f_['name'] for _, f_ in acc_]})
+    for fl_, fn_ in acc_:
+        ms_ = [n_['m'] for n_ in _sx.walk(fn_['body']) if n_.get('k') == 'mcall']
+        where_ = '%s/%s:%s' % (g.crate, fl_, fn_['l'])
+        outer_ = [m_ for m_ in ms_ if m_ in ('first', 'first_mut')] + (['get(0)'] if any(n_.get('k') == 'mcall' and n_['m'] == 'get' and n_['args'] and _sx.lit_int(n_['args'][0]) == 0 for n_ in _sx.walk(fn_['body'])) else []) \
+            + (['iter().next()'] if 'next' in ms_ and 'rev' not in ms_ and 'last' not in ms_ else [])
+        if outer_:
+            k2.fail('%s:%s:outermost-version' % (g.crate, fn_['name']), where_,
+                    '%s reads the version stack with `%s`: that is the OUTERMOST open `begin_keywords selector; the keyword set in force is the innermost one (the last '
+                    'element) — with two selectors open (nested regions, or a macro name inside a region) the wrong table is consulted' % (fn_['name'], outer_[0]))
+        elif 'last' not in ms_ and not ('rev' in ms_ and 'next' in ms_):
+            k2.undecided('%s:%s:version-accessor' % (g.crate, fn_['name']), where_, '%s: how the element of the version stack is chosen is not recognised' % fn_['name'])
     return [k1, k2, k3, k4]
